@@ -467,23 +467,20 @@ def arg_lang(c, facts, b, g, spec, scope, prim):
             body = unwrap(body["p"])
         live = [a for a in flat_alts(body) if not never_succeeds(g, a)]
         unit_alt, default_alt = None, None
+        fmod = tuple(facts.fns[found["fn"]].module)
         for a in live:
-            a = unwrap(a)
+            a, amod = args.open_alt(g, a, facts)
             if a["t"] == "map" and unwrap(a["p"])["t"] == "seq":
-                unit_alt = a
+                unit_alt = (a, amod or fmod)
             elif a["t"] == "map":
                 default_alt = a
         ok_units = None
         detail = "no unit alternative found"
         if unit_alt is not None:
-            sq = unwrap(unit_alt["p"])
-            unitset = unwrap(sq["items"][-1]["p"])
-            mt = args.match_table(unit_alt["f"], scope)
-            if mt and unitset["t"] == "set":
-                table, other, scr, payload_ok = mt
-                setchars = "".join(sorted(unitset["cs"][1])) if unitset["cs"][0] == "in" else None
-                ok_units = table == want_table and setchars == "".join(sorted(want_table)) and payload_ok and unitset.get("one")
-                detail = "unit characters %r, table %s, count passed unchanged: %s; reference %s" % (setchars, table, payload_ok, want_table)
+            vt = args.value_table(g, facts, unit_alt[0], scope, unit_alt[1])
+            if vt is not None and vt["numbered"]:
+                ok_units = vt["table"] == want_table and vt["chars"] == "".join(sorted(want_table)) and vt["payload_ok"] and vt["one"] and not vt["problems"]
+                detail = "unit characters %r, table %s, count passed unchanged: %s%s; reference %s" % (vt["chars"], vt["table"], vt["payload_ok"], ("; " + "; ".join(vt["problems"][:3])) if vt["problems"] else "", want_table)
         c.ob("C05.arg-lang", found["fn"], "%s unit table" % label, ok_units, detail)
         okd = None
         dd = "no default alternative found"
@@ -518,11 +515,10 @@ def arg_lang(c, facts, b, g, spec, scope, prim):
             okt = None
             det = "letter alternative not recognised"
             if len(live) == 1 and live[0]["t"] == "map":
-                mt = args.match_table(live[0]["f"], scope)
-                st = unwrap(live[0]["p"])
-                if mt and st["t"] == "set":
-                    okt = mt[0] == spec["file_types"] and st["cs"] == peg.cs_in(spec["file_types"].keys()) and st.get("one")
-                    det = "letters %s → %s; reference %s" % (peg.cs_show(st["cs"]), mt[0], spec["file_types"])
+                vt = args.value_table(g, facts, live[0], scope, tuple(facts.fns[unwrap(body["p"])["fn"]].module))
+                if vt is not None and not vt["numbered"]:
+                    okt = vt["table"] == spec["file_types"] and vt["chars"] == "".join(sorted(spec["file_types"].keys())) and vt["one"] and not vt["problems"]
+                    det = "letters %r → %s%s; reference %s" % (vt["chars"], vt["table"], ("; " + "; ".join(vt["problems"][:3])) if vt["problems"] else "", spec["file_types"])
             c.ob("C05.arg-lang", unwrap(body["p"])["fn"], "type letter table", okt, det)
 
 
